@@ -185,7 +185,7 @@ let handle (line : string) =
       | None -> (
           match Img_cmds.handle toks with
           | Some reply -> say reply
-          | None -> (match Sync_cmds.handle toks with Some reply -> say reply | None -> (match Misc_cmds.handle toks with Some reply -> say reply | None -> (match Wal_cmds.handle toks with Some reply -> say reply | None -> (match Rb_cmds.handle toks with Some reply -> say reply | None -> (match Fl_cmds.handle toks with Some reply -> say reply | None -> (match Delta_cmds.handle toks with Some reply -> say reply | None -> (match Lb_cmds.handle toks with Some reply -> say reply | None -> (match Bb_cmds.handle toks with Some reply -> say reply | None -> say ("error unknown command: " ^ line)))))))))))
+          | None -> (match Sync_cmds.handle toks with Some reply -> say reply | None -> (match Misc_cmds.handle toks with Some reply -> say reply | None -> (match Wal_cmds.handle toks with Some reply -> say reply | None -> (match Rb_cmds.handle toks with Some reply -> say reply | None -> (match Fl_cmds.handle toks with Some reply -> say reply | None -> (match Delta_cmds.handle toks with Some reply -> say reply | None -> (match Lb_cmds.handle toks with Some reply -> say reply | None -> (match Bb_cmds.handle toks with Some reply -> say reply | None -> (match Rbbook_cmds.handle toks with Some reply -> say reply | None -> say ("error unknown command: " ^ line))))))))))))
 
 let () =
   try
